@@ -418,7 +418,9 @@ func (pr *procRunner) apply(f []string) (out string) {
 		for k, v := range typeURL {
 			shortOf[v] = k
 		}
+		tprocRow = ""
 		if f[2] == "tproc" {
+			tprocRow = wire.Dec(f[4])
 			// case <n> tproc <sotw|delta> <constant> <url>: the type of the case is ANY type-URL constant, called T
 			url := wire.Dec(f[5])
 			typeURL["T"], shortOf[url] = url, "T"
@@ -438,6 +440,7 @@ func (pr *procRunner) apply(f []string) (out string) {
 	switch f[0] {
 	case "out":
 		p.setScript(f)
+		stat("script." + f[2] + "." + map[bool]string{true: "fixed", false: f[3]}[f[3] != "echo" && f[3] != "nil" && f[3] != "err"])
 		return "ok"
 	case "fail":
 		p.fail = f[1] == "1"
@@ -876,6 +879,13 @@ func (o *procOracle) pushAll(f []string, line string) {
 
 func (o *procOracle) deltaReq(f []string, line string) {
 	t := f[1]
+	stat("nonce-kind." + f[5])
+	if o.pr.p.grpc {
+		stat("class.grpc-request")
+	}
+	if f[4] != "-" {
+		stat("class.delta.request-with-initial-resource-versions")
+	}
 	if debugT(t) {
 		o.debugReq(f, wire.DecList(f[2]), line)
 		return
